@@ -102,6 +102,7 @@ func rulesC10(c *Ctx) {
 	residualC10(c, ce)
 	parenRangeC10(c, ce)
 	nilResidualC10(c, ce)
+	noFabricateC10(c, ce)
 	zoneSourceC10(c)
 	// the residual is built through reduce: its boolean short-cuts decide
 	// whether `x OR false`, `true AND x` keep x
